@@ -16,6 +16,7 @@ const (
 	c04Close            // Content-Length, Connection: close
 	c04Chunked          // chunked, keep-alive
 	c04ChunkedEvil      // chunked; the single chunk continues with bytes that spell a complete response
+	c04CloseLower       // Content-Length, "connection: close" (field names are case-insensitive)
 	c04NumKinds
 )
 
@@ -34,6 +35,8 @@ func c04Build(kind int, tag []byte) (wire string, body string) {
 		return "HTTP/1.1 200 OK\r\nContent-Length: 2\r\n\r\n" + t, t
 	case c04Close:
 		return "HTTP/1.1 200 OK\r\nConnection: close\r\nContent-Length: 2\r\n\r\n" + t, t
+	case c04CloseLower:
+		return "HTTP/1.1 200 OK\r\nconnection: close\r\ncontent-length: 2\r\n\r\n" + t, t
 	case c04Chunked:
 		return "HTTP/1.1 200 OK\r\nTransfer-Encoding: chunked\r\n\r\n2\r\n" + t + "\r\n0\r\n\r\n", t
 	case c04ChunkedEvil:
@@ -61,6 +64,7 @@ func vhC04Sequential() {
 	stream := vBool("streamResponseBody")
 	split := vBool("splitDelivery") // head+2 body bytes, then the rest, in separate reads
 	hc := &HostClient{Addr: "a.co:80", StreamResponseBody: stream}
+	hc.DisableHeaderNamesNormalizing = vBool("disableHeaderNamesNormalizing")
 	scripts := map[int][]c04Resp{}
 	nw := &vcNet{}
 	nw.onDial = func(k int, addr string) *vcConn {
@@ -160,7 +164,7 @@ func vhC04Sequential() {
 			if !complete && (len(got) > len(want) || string(got) != want[:len(got)]) {
 				ownOK = false
 			}
-			if reqClose || scripts[conn][idx].kind == c04Close {
+			if reqClose || scripts[conn][idx].kind == c04Close || scripts[conn][idx].kind == c04CloseLower {
 				saidClose[conn] = true
 			}
 		}
